@@ -53,6 +53,11 @@ def setup_process() -> str:
     os.chdir(root)
     if VERIF not in sys.path:
         sys.path.insert(0, VERIF)
+    if os.path.realpath(REPO) != "/repo":
+        # development aid only (trying a patch in a scratch worktree without touching /repo):
+        # registered commands never set VERIF_REPO and always run /repo's working tree
+        sys.path.insert(0, REPO)
+        os.environ["PYTHONPATH"] = REPO + os.pathsep + os.environ.get("PYTHONPATH", "")
     # keep BLAS / numba single threaded: the only parallelism is the driver's
     for v in ("OMP_NUM_THREADS", "MKL_NUM_THREADS", "OPENBLAS_NUM_THREADS",
               "NUMBA_NUM_THREADS"):
